@@ -30,5 +30,9 @@ RECURSIVE LeftChain(_)
 LeftChain(s) == IF Len(s) = 1 THEN LeafT(s[1]) ELSE NodeT(LeftChain(SubSeq(s, 1, Len(s) - 1)), LeafT(s[Len(s)]))
 
 \* divisor pairs of n >= 1
-Divisors(n) == {d \in 1..n : n % d = 0}
+\* integer square root (n < 2^31: the root is at most 46340, and 46341^2 would overflow TLC's integers)
+ISqrt(n) == CHOOSE r \in 0..46340 : r * r <= n /\ (r = 46340 \/ (r + 1) * (r + 1) > n)
+\* every divisor is d or n \div d for some d up to the root
+Divisors(n) == IF n <= 4096 THEN {d \in 1..n : n % d = 0}
+               ELSE LET S == {d \in 1..ISqrt(n) : n % d = 0} IN S \cup {n \div d : d \in S}
 =============================================================================
